@@ -1,8 +1,9 @@
 """C12 - rectangle mass of a Levy-copula model is a measure consistent with its margins.
 
 Mode: lattice sweep (complete finite products), plus a history part: the lru_cache of the marginal tail integral, copies of a
-used model, a second model used in between, ONE used model walked through the copulas by the public setters, and the
-construction route of the model under test.
+used model (shallow / deep / pickle / dill, before and after truncation, then the copy or the original re-parametrised), a second
+model used in between, ONE used model walked through the copulas by the public setters, the construction route of the model
+under test, and the integrity of the containers handed to the model (not modified, not kept).
 
 Alphabet
   models     mc.alphabets.copula_model_specs(tier) (pairs and triples of HEM / VG / CGMY 0.5 / CGMY 1.2 / Merton margins under
@@ -49,14 +50,26 @@ Alphabet
              writings in its query list (forward pass: +0.0 first, reverse pass: -0.0 first); `spelling` has a fresh model
              whose zeros are all negative. Only in coordinates where an end point 0 is inside the alphabet (finite activity,
              or nu_k((0,inf)) reported +inf by the margin).
+  ties       models with IDENTICAL margins (hem,hem under the dependent and a Clayton copula, cgmy05,cgmy05 dependent, vg,vg
+             independent, hem,hem,hem dependent; thorough: + hem,hem,hem Clayton(3,1) and vg,vg,vg independent): equal end points on
+             two axes give exactly equal arguments of the copula; sub-checks tails, subfamily, partition, rect (d = 2: all
+             rectangles; quick d = 3: first numeric instances in the second and third coordinate).
+             empty intervals a_k = b_k: every rectangle made of first numeric instances, each coordinate in turn collapsed to
+             (b_k, b_k] ((a_k, a_k] where b_k is infinite): mass 0 by every route (`rect`, key empty-interval).
+             The truncation bounds of `history` coincide with alphabet end points (-0.5, 0.7, 0.3).
   spellings  the Python objects carrying the end points (sub = spelling; one fresh model per spelling): tuples of floats
              (baseline) / lists / tuples of numpy float64 scalars / numpy arrays / keyword arguments a=, b= / -0.0 as tuples and
-             as arrays - the forms in which distribution.samplingfactory, the grids and numerical.closedform call `mass`.
+             as arrays - the forms in which distribution.samplingfactory, the grids and numerical.closedform call `mass` -
+             / ONE pair of numpy arrays refilled in place before every call (reused-buffers) / the index family as a tuple and
+             as a list of numpy int64 (named explicitly also for the full family; a form that the model rejects with an exception
+             is counted spelling_form_rejected, never an alarm). After every call of every spelling the containers handed over
+             (a, b, indices) are compared with copies taken before.
              Rectangles: first numeric instances of the 8 types + the zero-touching intervals (-0.4,0] (0,0.25] (-inf,0]
              (0,inf), at least one coordinate bounded away from zero, all index subsets (d = 3: types pos-fin, neg-fin,
              neg-inf, str-fin, whole + the two finite zero-touching intervals). `tails` also asks marginal_tail_integral with
-             keywords (i=, x=: its own memo key, the form used by inverse_tail_integral and markovchainsde) and with numpy
-             scalars, tail_integrals(x=ndarray), margin_tail_integral(indices=, x=tuple).
+             keywords (i=, x=: its own memo key, the form used by inverse_tail_integral and markovchainsde), with numpy
+             scalars and with a numpy int64 coordinate index, tail_integrals(x=ndarray), margin_tail_integral(indices=, x=tuple),
+             inverse_tail_integral(i=, x=numpy scalar) (the form of process.levycopulaseries).
 
 Sub-checks (sub = ...)
   rect       per rectangle: finite; mass >= -slack; fast path (model.mass, _mass_2d/_mass_3d) = _mass_nd; = reference mass
@@ -73,7 +86,16 @@ Sub-checks (sub = ...)
              nu_i((0,inf)), +inf for infinite activity; asked where the margin reports that integral as finite or +inf);
              margin_tail_integral(I, x) and tail_integrals(x) = I-margin of the copula at
              the marginal tail integrals, all subsets, all point tuples of a 6-letter sub-alphabet;
-             inverse_tail_integral(i, U_i(x)) = x and U_i(inverse_tail_integral(i, y)) = y for y inside the range of U_i
+             inverse_tail_integral(i, U_i(x)) = x for x in the alphabet and at the ends +-1e-20, +-500 of the root bracket;
+             U_i(inverse_tail_integral(i, y)) = y for y = +-{0.01, 0.5, 2, 50, 1000} and, for finite-activity margins, y = the
+             end L of the attainable range (L = nu(0,inf) and -nu(-inf,0)), L(1 - 1e-6), L(1 + 1e-9), 2L. A y beyond the value
+             of U_i at +-1e-12 (U_i is monotone on each side of zero: the generalised inverse then lies in (0, 1e-12]; this is
+             every y beyond the attainable range of a finite-activity margin, where inf{x > 0: U(x) <= y} = 0 - the fallback
+             branch of the library, reached by levycopulaseries) must give 0 <= sign(y) x <= 1e-12.
+             argument integrity: tail_integrals / margin_tail_integral / the copula of the model itself called on ONE numpy
+             buffer refilled in place: same values as with fresh tuples / arrays, buffer and index list unchanged after the call.
+             memo sweep: 1100 distinct abscissae per coordinate on one model (the memo holds 2**10 entries), every tenth
+             against the definition, the first 64 asked again afterwards: bit for bit what they were.
   history    one list of queries (masses incl. zero-touching rectangles in both writings of zero, tail integrals incl.
              U(+-0.0), inverses) is evaluated on a fresh model twice (second pass hits the cache), on another fresh model
              in reverse order, with the tail integrals first, on a deepcopy and on a pickle round trip of the used model,
@@ -82,7 +104,10 @@ Sub-checks (sub = ...)
              truncated before its first query. Asserted bit for bit: pass 2 = pass 1, every order = forward, copies =
              original, unchanged by the other model, -0.0 = +0.0 within a pass, and warm-after-truncation =
              cold-after-truncation (the answer to a query is a function of the model and the rectangle, not of what was
-             asked before, of which object asks, or of how zero is written). Whether truncation changes the masses at all is
+             asked before, of which object asks, or of how zero is written). Also: a copy.copy and a dill round trip of the
+             used model = original; a deepcopy of the used model truncated AFTER the copy (the route of MarkovChainLevyCopula) =
+             fresh model truncated, and the original unchanged by it; deepcopy / dill / copy.copy of the used model taken
+             AFTER its truncation = the truncated original. Whether truncation changes the masses at all is
              NOT asserted (DESIGN section 9 item 20: it does not reach `mass` on the pinned tree); it is recorded in the
              counter `truncation_changed_some_value`. (d = 3: the copy / other-model passes ask the tail integrals, the
              sub-family masses and the full rectangles over pos-fin, neg-fin, str-fin and the zero-touching intervals.)
@@ -93,19 +118,30 @@ Sub-checks (sub = ...)
              through checked transitions. After each transition masses (all routes, all index subsets), tail integrals and
              tail_integrals are bit for bit those of a model freshly constructed with the target copula (which the lattice
              sub-checks compare with the reference). One case per margin tuple.
+  copies     per margin tuple and kind of copy (deepcopy, dill, pickle, copy.copy): a model whose caches are all populated is
+             copied; then the COPY, or the ORIGINAL, is re-parametrised (Clayton setters theta / eta / both; `.copula =`
+             independent, dependent). deep copies: the object touched = fresh model with the target copula, the other one = fresh
+             model with the source copula, bit for bit, all queries of `reparam`. copy.copy shares the copula object: after a
+             setter both = fresh target model; `.copula =` on one of the two is recorded, not judged (see below).
   density    (Clayton) mass of an off-axis finite rectangle = 2-d quadrature of the implied joint density
              d2F/du1du2 (U_1(x_1), U_2(x_2)) nu_1(x_1) nu_2(x_2) with the mixed derivative of the Clayton formula written
              here; for triples through the 2-margins (which are Clayton with eta = 1/2: verified against the
              definition-based margin before use, otherwise skipped and noted). Compared only when the quadrature's own
              error estimate is below 1e-9 relative, else counted as oracle_inconclusive.
 
-Outside the alphabet (statement silent): in-place changes of a MARGIN's parameters inside a constructed copula model (like
+Outside the alphabet (statement silent): assignment of `.copula` on a SHALLOW copy of a model (on the pinned tree `mass` is an
+instance attribute holding the bound method of the original, so copy.copy(m).mass keeps reading m.copula while ._mass_nd reads the
+copy's: counter shallow_copy_mass_still_bound_to_the_original; no library route makes shallow copies of models); changes of the
+caller's `models` list after construction (the constructor keeps the list itself in .models; the masses use the measures captured
+at construction); in-place changes of a MARGIN's parameters inside a constructed copula model (like
 truncation they do not reach `mass`: the marginal Levy measures are captured at construction; observation, not asserted);
 FrankLevyCopula (never used by the library; as coded it is a Levy copula for one-sided margins only: on two-sided margins its
 I-margins are 2^(d-1) u and straddling rectangles get negative mass - C11's subject, reported, not enumerated here);
-index subsets given as tuples (annotated list[int]); a > b; rectangles containing the origin (all coordinates straddling, or
+index subsets given as numpy arrays (rejected), a > b; rectangles containing the origin (all coordinates straddling, or
 closure touching the origin in every coordinate); 1-d sub-family intervals containing 0; Python ints and numpy float32 as end
-points (sign() dispatches on float); y outside the range of a finite-activity tail integral for the inverse; the value of the masses after
+points (sign() dispatches on float: rejected with TypeError, like integer-dtype arrays and arrays of shape (1,n)); the inverse
+at y = 0 (the value of U at +-inf) and at |y| above 1e3 (the absolute xtol of the root search is then coarser than 1e-9 relative);
+the value of the masses after
 truncate_levy_measure; closed-form marginal integrals against the density (C09) and copula axioms (C11).
 
 Tolerances: every compared quantity is a signed sum of at most ~30 copula values, each bounded in modulus by
@@ -133,8 +169,9 @@ LEVEL = "exploration"
 RULE = (
     "complete product of copula models x d-tuples of the 15 alphabet intervals per coordinate minus the tuples that "
     "contain the origin, x all alphabet split points per coordinate (zero written +0.0 and -0.0), x all index subsets, x "
-    "construction routes (direct / reinit / reused / swapped), x spellings of the end points, x all ordered pairs of copulas on "
-    "one used model; a case is non-trivial when at "
+    "construction routes (direct / reinit / reused / swapped), x spellings of the end points and of the index family, x all "
+    "ordered pairs of copulas on one used model, x kinds of copy x object re-parametrised x target copula; identical margins; "
+    "empty intervals; a case is non-trivial when at "
     "least one mass of the real model was compared with the reference or with another route of the real code; "
     "distinct = distinct case dict (model, fixed first interval / sub-check)"
 )
@@ -147,6 +184,9 @@ ASSUMPTIONS = [
     "like a constructor argument: the used model must then equal a freshly constructed one; in-place changes of a margin inside "
     "a constructed copula model are not covered",
     "-0.0 and 0.0, and float / numpy.float64 / ndarray carriers, denote the same end points",
+    "a deep copy (copy.deepcopy, pickle, dill) of a model is an independent model: re-parametrising one of the two through the "
+    "public setters leaves the other one as it was; for |y| beyond the value of U at +-1e-12 the inverse tail integral is a "
+    "point of [0, 1e-12] on the side of y (generalised inverse of a monotone function)",
     "joint-density quadrature (Clayton only) uses scipy nested adaptive quadrature and is compared only when its own error "
     "estimate is below 1e-9 relative",
 ]
@@ -176,7 +216,7 @@ INTERVALS = [{"t": t, "k": 0, "a": inst[0][0], "b": inst[0][1]} for t, inst in T
 FIRST = [i for i, iv in enumerate(INTERVALS) if iv["k"] == 0]
 POINTS = sorted({x for iv in INTERVALS for x in (iv["a"], iv["b"]) if math.isfinite(x)})
 POINTS_SUB = [-1.0, -0.2, -0.03, 0.02, 0.1, 0.7]
-Y_ALPHABET = [0.01, 0.5, 2.0, 50.0]
+Y_ALPHABET = [0.01, 0.5, 2.0, 50.0, 1000.0]
 TRUNCATIONS = [(-0.5, 0.7), (-0.25, 0.15), (-1.5, 0.3)]
 
 # construction routes of the model under test (the property quantifies over models, not over how they were reached)
@@ -187,7 +227,25 @@ DONOR_CLAYTON = {"kind": "clayton", "theta": 1.9, "eta": 0.65}  # differs from e
 ZERO_INTERVALS = [(-0.4, 0.0), (0.0, 0.25), (-INF, 0.0), (0.0, INF)]
 SMALL_TYPES = {"pos-fin", "neg-fin", "str-fin", "neg-inf", "whole"}
 CORE_TYPES = {"pos-fin", "neg-fin", "str-fin"}
-SPELLINGS = ("list", "np-scalars", "ndarray", "keywords", "negzero", "negzero-ndarray")
+SPELLINGS = ("list", "np-scalars", "ndarray", "keywords", "negzero", "negzero-ndarray", "reused-buffers", "indices-tuple",
+             "indices-np-int64")
+# models whose margins are IDENTICAL (equal tail integrals on two axes at equal end points: exact ties in the copula's arguments)
+TIE_SPECS = [
+    {"margins": ["hem", "hem"], "copula": {"kind": "dependent"}},
+    {"margins": ["hem", "hem"], "copula": {"kind": "clayton", "theta": 0.7, "eta": 0.3}},
+    {"margins": ["cgmy05", "cgmy05"], "copula": {"kind": "dependent"}},
+    {"margins": ["vg", "vg"], "copula": {"kind": "independent"}},
+    {"margins": ["hem", "hem", "hem"], "copula": {"kind": "dependent"}},
+]
+TIE_SPECS_THOROUGH = [
+    {"margins": ["hem", "hem", "hem"], "copula": {"kind": "clayton", "theta": 3.0, "eta": 1.0}},
+    {"margins": ["vg", "vg", "vg"], "copula": {"kind": "independent"}},
+]
+# copies of a used model followed by a re-parametrisation of the copy or of the original (sub = copies)
+COPY_KINDS = ("deepcopy", "dill", "pickle", "shallow")
+COPY_TARGETS = [{"kind": "clayton", "theta": 3.0, "eta": 1.0}, {"kind": "independent"}]
+COPY_TARGETS_THOROUGH = COPY_TARGETS + [{"kind": "clayton", "theta": 0.7, "eta": 0.0}, {"kind": "dependent"}]
+LRU_SWEEP = 1100  # more distinct abscissae per coordinate than the 2**10 entries of the memo of the marginal tail integral
 
 
 # ----------------------------------------------------------------------------------------------------------------------
@@ -270,6 +328,21 @@ def cases(tier):
             out.append({"sub": sub, "model": spec, "exp": exp, "route": route})
         for i0 in (range(len(INTERVALS)) if (d == 2 or thorough) else FIRST):
             out.append({"sub": "rect", "model": spec, "exp": exp, "i0": i0, "others": "all" if d == 2 else "first", "route": route})
+    # identical margins: equal tail integrals on two axes at equal end points (ties in the arguments of the copula)
+    for spec in TIE_SPECS + (TIE_SPECS_THOROUGH if thorough else []):
+        for sub in ("tails", "subfamily", "partition"):
+            out.append({"sub": sub, "model": spec, "exp": False})
+        for i0 in range(len(INTERVALS)):
+            out.append({"sub": "rect", "model": spec, "exp": False, "i0": i0, "others": "all" if (len(spec["margins"]) == 2 or thorough) else "first"})
+    # copies of a used model, then the copy or the original re-parametrised: one case per margin tuple and kind of copy
+    seen = set()
+    for spec, exp in models:
+        key = (tuple(spec["margins"]), exp)
+        if key in seen or (exp and not thorough):
+            continue
+        seen.add(key)
+        for kind in COPY_KINDS:
+            out.append({"sub": "copies", "model": spec, "exp": exp, "kind": kind, "targets": "thorough"})
     return out
 
 
@@ -577,6 +650,34 @@ def _with(v, k, x):
     return tuple(w)
 
 
+def _check_empty(sh, ctx, a, b):
+    """Exact tie a_k = b_k: the rectangle with one coordinate interval collapsed to (b_k, b_k] (to (a_k, a_k] where b_k is
+    infinite) is empty: mass 0 by every route, up to the re-association of copula values bounded by |U_k(b_k)|."""
+    d = ctx.d
+    I = tuple(range(d))
+    for k in range(d):
+        s = b[k] if math.isfinite(b[k]) else a[k]
+        if not math.isfinite(s):
+            continue  # the whole line has no finite end point to collapse to
+        ea, eb = _with(a, k, s), _with(b, k, s)
+        S = ctx.scale(I, ea, eb)
+        if not S > 0:
+            continue
+        kl = _klass(ctx, ea, eb)
+        for name, fn in _routes(ctx, I, ea, eb, True).items():
+            sh.count("evaluations")
+            try:
+                v = float(fn())
+            except Exception as e:
+                sh.violation(f"C12:empty-interval:{name}:raises-{type(e).__name__}:{kl}", f"{name}({_fmt(ea, eb)}) raised {e!r}", {"a": ea, "b": eb, "k": k})
+                continue
+            if not abs(v) <= 1e-12 * S:
+                sh.violation(f"C12:empty-interval:{name}:mass-of-empty-rectangle-not-zero:{kl}",
+                             f"{name}({_fmt(ea, eb)}) = {v}: the interval of coordinate {k} is empty (scale {S})",
+                             {"a": ea, "b": eb, "k": k, "value": v, "scale": S})
+    sh.count("empty_rectangles", d)
+
+
 def _sub_rect(sh, case):
     ctx = Ctx(case)
     d = ctx.d
@@ -601,6 +702,8 @@ def _sub_rect(sh, case):
         if n_rect % 97 == 1:
             sh.sample({"model": case["model"], "a": a, "b": b, "mass": m})
         S = ctx.scale(full_I, a, b)
+        if all(iv["k"] == 0 for iv in ivs):
+            _check_empty(sh, ctx, a, b)
         # ---- additivity under a split of any coordinate at any alphabet point
         for k in range(d):
             for s in POINTS:
@@ -805,12 +908,13 @@ def _sub_tails(sh, case):
         xs += [(other, x, "positional") for x in ([0.0, -0.0] if zeros else [])]
         xs += [(other, x, "keywords") for x in POINTS_SUB + ([-0.0] if zeros else [])]
         xs += [(other, np.float64(x), "np.float64") for x in POINTS_SUB + ([-0.0] if zeros else [])]
+        xs += [(other, x, "np.int64-index") for x in POINTS_SUB]
         for mdl, x, how in xs:
             ref = ctx.U0(i, +1) if x == 0 else ctx.U(i, float(x))
             zs = ("zero" if math.copysign(1.0, x) > 0 else "negative-zero") if x == 0 else _side(x)
             sh.count("evaluations")
             try:
-                v = float(mdl.marginal_tail_integral(i=i, x=x) if how == "keywords" else mdl.marginal_tail_integral(i, x))
+                v = float(mdl.marginal_tail_integral(i=i, x=x) if how == "keywords" else mdl.marginal_tail_integral(np.int64(i) if how == "np.int64-index" else i, x))
             except Exception as e:
                 sh.violation(f"C12:tails:marginal_tail_integral:raises-{type(e).__name__}:side={zs}:activity={act}", f"U_{i}({x!r}) ({how}) raised {e!r}", {"i": i, "x": float(x), "how": how})
                 continue
@@ -848,7 +952,8 @@ def _sub_tails(sh, case):
     inv = _lib(model, "inverse_tail_integral")
     for i in range(d):
         act = "finite" if ctx.fa[i] else "infinite"
-        for x in POINTS:
+        # the alphabet points and the two ends of the bracket of the root search on each side
+        for x in POINTS + [1e-20, -1e-20, 500.0, -500.0]:
             y = ctx.U(i, x)
             if y == 0.0 or not math.isfinite(y):
                 continue
@@ -866,24 +971,159 @@ def _sub_tails(sh, case):
             if not core.close(xb, x, rtol=1e-9, atol=1e-12) and not (xb != 0 and core.close(ctx.U(i, xb), y, rtol=1e-9, atol=y_atol)):
                 sh.violation(f"C12:inverse:inverse_tail_integral:inverse-of-U-differs:side={_side(x)}:activity={act}",
                              f"inverse_tail_integral({i}, U_{i}({x}) = {y}) = {xb}", {"i": i, "x": x, "y": y, "back": xb})
-        for y0 in Y_ALPHABET:
-            for y in (y0, -y0):
-                lim = ctx.U0(i, +1 if y > 0 else -1)
-                if abs(y) >= 0.99 * abs(lim):
-                    sh.count("inverse_y_outside_range_of_U")
-                    continue  # outside the range of a finite-activity tail integral: no inverse exists
-                sh.count("evaluations")
-                try:
-                    xb = float(inv(i, y))
-                    yb = float(model.marginal_tail_integral(i, xb))
-                except Exception as e:
-                    sh.violation(f"C12:inverse:inverse_tail_integral:raises-{type(e).__name__}:side={_side(y)}:activity={act}", f"inverse_tail_integral({i}, {y}) raised {e!r}", {"i": i, "y": y})
-                    continue
-                ref_yb = ctx.U(i, xb) if xb != 0 else math.nan
-                if not (core.close(yb, y, rtol=1e-9) and core.close(ref_yb, y, rtol=1e-9)):
-                    sh.violation(f"C12:inverse:inverse_tail_integral:U-of-inverse-differs:side={_side(y)}:activity={act}",
-                                 f"x = inverse_tail_integral({i}, {y}) = {xb}; U_{i}(x) = {yb} (reference U: {ref_yb})", {"i": i, "y": y, "x": xb, "U": yb, "refU": ref_yb})
+        ys = [(y0 * sg, "alphabet") for y0 in Y_ALPHABET for sg in (1.0, -1.0)]
+        if ctx.fa[i]:  # exact tie with, and just inside / outside, the end of the attainable range (-nu(-inf,0), nu(0,inf))
+            for sg in (+1, -1):
+                lim = ctx.U0(i, sg)
+                ys += [(lim, "range-end"), (lim * (1.0 - 1e-6), "range-end"), (lim * (1.0 + 1e-9), "range-end"), (2.0 * lim, "range-end")]
+        for y, yclass in ys:
+            sg = 1.0 if y > 0 else -1.0
+            # U is monotone on each side of zero: |y| > |U(+-1e-12)| means that the (generalised) inverse lies in (0, 1e-12]
+            # on the side of y; for a finite-activity margin this includes every y beyond the attainable range, whose
+            # generalised inverse inf{x > 0: U(x) <= y} is 0 (levycopulaseries draws such y: a jump of size 0)
+            beyond = abs(y) > abs(ctx.U(i, sg * 1e-12))
+            sh.count("evaluations")
+            try:
+                xb = float(inv(i, y))
+                yb = float(model.marginal_tail_integral(i, xb))
+            except Exception as e:
+                sh.violation(f"C12:inverse:inverse_tail_integral:raises-{type(e).__name__}:side={_side(y)}:activity={act}" + (":beyond-bracket" if beyond else ""),
+                             f"inverse_tail_integral({i}, {y}) raised {e!r}", {"i": i, "y": y})
+                continue
+            if beyond:
+                sh.count("inverse_y_beyond_the_value_at_1e-12")
+                sh.cls(f"inverse:beyond:{act}")
+                if not (0.0 <= sg * xb <= 1e-12):
+                    sh.violation(f"C12:inverse:inverse_tail_integral:not-zero-beyond-the-range:side={_side(y)}:activity={act}",
+                                 f"inverse_tail_integral({i}, {y}) = {xb}, but |y| exceeds |U_{i}({sg * 1e-12})| = {abs(ctx.U(i, sg * 1e-12))}: "
+                                 f"the generalised inverse lies in [0, 1e-12] on the side of y", {"i": i, "y": y, "x": xb})
+                continue
+            # the form of the call in process.levycopulaseries: keywords, y a numpy scalar taken from an array
+            sh.count("evaluations")
+            try:
+                xk = float(inv(i=i, x=np.float64(y)))
+                if not core.close(xk, xb, rtol=1e-9, atol=1e-12):
+                    sh.violation(f"C12:inverse:inverse_tail_integral:keyword-numpy-scalar-form-differs:side={_side(y)}:activity={act}",
+                                 f"inverse_tail_integral(i={i}, x=np.float64({y})) = {xk}, inverse_tail_integral({i}, {y}) = {xb}", {"i": i, "y": y, "keywords": xk, "positional": xb})
+            except Exception as e:
+                sh.violation(f"C12:inverse:inverse_tail_integral:raises-{type(e).__name__}:keyword-numpy-scalar-form:activity={act}", f"inverse_tail_integral(i={i}, x=np.float64({y})) raised {e!r}", {"i": i, "y": y})
+            ref_yb = ctx.U(i, xb) if xb != 0 else math.nan
+            if not (core.close(yb, y, rtol=1e-9) and core.close(ref_yb, y, rtol=1e-9)):
+                sh.violation(f"C12:inverse:inverse_tail_integral:U-of-inverse-differs:side={_side(y)}:activity={act}" + ("" if yclass == "alphabet" else ":" + yclass),
+                             f"x = inverse_tail_integral({i}, {y}) = {xb}; U_{i}(x) = {yb} (reference U: {ref_yb})", {"i": i, "y": y, "x": xb, "U": yb, "refU": ref_yb})
+    _tails_argument_integrity(sh, ctx)
+    _tails_memo_sweep(sh, ctx)
     sh.nontriv()
+
+
+def _tails_argument_integrity(sh, ctx):
+    """The callee does not modify the caller's containers and keeps no reference to them: the array of abscissae handed to
+    tail_integrals / margin_tail_integral, the index list, and the array of tail integrals handed to the copula itself are
+    unchanged after the call; ONE buffer refilled in place between the calls gives what fresh tuples give."""
+    d, model = ctx.d, ctx.model
+    pts = list(itertools.product((-0.2, 0.1, 0.7), repeat=d))
+    buf = np.empty(d, dtype=float)
+    for xs in pts:
+        try:
+            want = float(model.tail_integrals(tuple(xs)))
+        except Exception:
+            continue  # reported by the I-margin loop
+        buf[:] = xs
+        keep = buf.copy()
+        sh.count("evaluations")
+        try:
+            got = float(model.tail_integrals(buf))
+            again = float(model.tail_integrals(x=buf))
+        except Exception as e:
+            sh.violation(f"C12:argument:tail_integrals:raises-{type(e).__name__}:reused-ndarray:cop={ctx.kind}", f"tail_integrals(ndarray {xs}) raised {e!r}", {"x": xs})
+            continue
+        if not np.array_equal(buf, keep):
+            sh.violation(f"C12:argument:tail_integrals:modifies-the-callers-array:d={d}:cop={ctx.kind}",
+                         f"after tail_integrals(x) the caller's array x = {keep.tolist()} reads {buf.tolist()}", {"before": keep.tolist(), "after": buf.tolist()})
+            buf = np.empty(d, dtype=float)
+        if not (_close(got, want, abs(want)) and _close(again, want, abs(want))):
+            sh.violation(f"C12:argument:tail_integrals:reused-ndarray-differs-from-tuple:d={d}:cop={ctx.kind}",
+                         f"tail_integrals of one re-used ndarray holding {xs} = {got}, then {again}; of a tuple: {want}", {"x": xs, "values": [got, again], "tuple": want})
+    for r in range(1, d + 1):
+        for I in itertools.combinations(range(d), r):
+            idx = list(I)
+            xs = [(-0.2, 0.1, 0.7)[(k + j) % 3] for j, k in enumerate(I)]
+            arr = np.array(xs, dtype=float)
+            sh.count("evaluations")
+            try:
+                want = float(model.margin_tail_integral(list(I), iter(tuple(xs))))
+                got = float(model.margin_tail_integral(idx, iter(arr)))
+            except Exception as e:
+                sh.violation(f"C12:argument:margin_tail_integral:raises-{type(e).__name__}:I={r}of{d}:cop={ctx.kind}", f"margin_tail_integral({idx}, iter(ndarray {xs})) raised {e!r}", {"I": list(I), "x": xs})
+                continue
+            if idx != list(I) or not np.array_equal(arr, np.array(xs, dtype=float)):
+                sh.violation(f"C12:argument:margin_tail_integral:modifies-the-callers-containers:I={r}of{d}:cop={ctx.kind}",
+                             f"after margin_tail_integral(indices, iter(x)): indices {list(I)} -> {idx}, x {xs} -> {arr.tolist()}", {"I": list(I), "after": idx, "x": xs, "x_after": arr.tolist()})
+            if not _close(got, want, abs(want)):
+                sh.violation(f"C12:argument:margin_tail_integral:ndarray-differs-from-tuple:I={r}of{d}:cop={ctx.kind}",
+                             f"margin_tail_integral({list(I)}, iter(ndarray {xs})) = {got}, with a tuple: {want}", {"I": list(I), "x": xs, "value": got, "tuple": want})
+    # the copula of the model, called as the model calls it (ndarray of tail integrals, infinities for the I-margins)
+    cop = getattr(model, "copula", None)
+    if cop is not None:
+        vals = (-INF, -3.0, -0.4, 0.2, 5.0, INF)
+        us_list = [u for u in itertools.product(vals, repeat=d) if sum(1 for x in u if math.isinf(x)) < d]
+        if d == 3:
+            us_list = us_list[::3]
+        buf = np.empty(d, dtype=float)
+        for u in us_list:
+            fresh = np.array(u, dtype=float)
+            buf[:] = u
+            sh.count("evaluations")
+            try:
+                want = float(cop(fresh))
+                got = float(cop(buf))
+                again = float(cop(buf))
+            except Exception as e:
+                sh.violation(f"C12:argument:copula:raises-{type(e).__name__}:cop={ctx.kind}", f"copula({u}) raised {e!r}", {"u": u})
+                continue
+            if not (np.array_equal(fresh, np.array(u, dtype=float)) and np.array_equal(buf, fresh)):
+                sh.violation(f"C12:argument:copula:modifies-the-callers-array:d={d}:cop={ctx.kind}",
+                             f"after copula(us) the caller's array us = {list(u)} reads {fresh.tolist()} / {buf.tolist()}", {"before": list(u), "after": [fresh.tolist(), buf.tolist()]})
+                buf = np.empty(d, dtype=float)
+            if not (got == want and again == want) and not (math.isnan(want) and math.isnan(got) and math.isnan(again)):
+                sh.violation(f"C12:argument:copula:same-argument-different-value:d={d}:cop={ctx.kind}",
+                             f"copula({list(u)}) = {want} on a fresh array, {got} and then {again} on a re-used array holding the same numbers", {"u": list(u), "values": [want, got, again]})
+
+
+def _tails_memo_sweep(sh, ctx):
+    """More distinct abscissae per coordinate than the memo of the marginal tail integral holds (2**10 entries for all
+    coordinates together): the first ones, asked again after the sweep, give bit for bit what they gave before, and every tenth
+    value of the sweep is the tail integral by the definition."""
+    model = ctx.model
+    first = {}
+    for i in range(ctx.d):
+        act = "finite" if ctx.fa[i] else "infinite"
+        xs = [sg * 0.9 * 0.993 ** k for k in range(LRU_SWEEP // 2) for sg in (1.0, -1.0)]
+        for n, x in enumerate(xs):
+            try:
+                v = float(model.marginal_tail_integral(i, x))
+            except Exception as e:
+                sh.violation(f"C12:tails:marginal_tail_integral:raises-{type(e).__name__}:memo-sweep:activity={act}", f"U_{i}({x!r}) raised {e!r}", {"i": i, "x": x})
+                break
+            if n < 64:
+                first[(i, x)] = v
+            if n % 10 == 0:
+                sh.count("evaluations")
+                ref = ctx.U(i, x)
+                if not core.close(v, ref, rtol=1e-12, atol=0.0):
+                    sh.violation(f"C12:tails:marginal_tail_integral:differs-from-sign-nu-I:memo-sweep:side={_side(x)}:activity={act}",
+                                 f"U_{i}({x!r}) = {v} as abscissa number {n} of a sweep, sign(x) nu(I(x)) = {ref}", {"i": i, "x": x, "n": n, "value": v, "reference": ref})
+        sh.count("memo_sweep_abscissae", len(xs))
+    for (i, x), v in first.items():
+        sh.count("evaluations")
+        try:
+            w = float(model.marginal_tail_integral(i, x))
+        except Exception as e:
+            sh.violation(f"C12:tails:marginal_tail_integral:raises-{type(e).__name__}:memo-sweep-asked-again", f"U_{i}({x!r}) raised {e!r} when asked again", {"i": i, "x": x})
+            continue
+        if w != v:
+            sh.violation("C12:tails:marginal_tail_integral:changes-after-a-sweep-larger-than-the-memo",
+                         f"U_{i}({x!r}) = {v} before and {w} after {LRU_SWEEP} other abscissae per coordinate", {"i": i, "x": x, "before": v, "after": w})
 
 
 # ----------------------------------------------------------------------------------------------------------------------
@@ -1020,11 +1260,28 @@ def _sub_history(sh, case):
     r8 = [_ask(m1, q) for q in Qs]
     m9 = ctx.fresh_model()
     r9 = [_ask(m9, q) for q in Qs]
+    # more copies of the used model: shallow copy, dill round trip (what the engines' pool sends to its workers)
+    r6s = [_ask(copy.copy(m1), q) for q in Qs]
+    m7d = _copy_of(sh, m1, "dill")
+    r7d = [_ask(m7d, q) for q in Qs] if m7d is not None else None
+    # the library's own route to a truncated model (MarkovChainLevyCopula): deepcopy of the (used) model, truncation of the COPY;
+    # the original is not touched by it
+    m10 = copy.deepcopy(m1)
+    m10.truncate_levy_measure(trunc)
+    r10 = [_ask(m10, q) for q in Q]
+    r10o = [_ask(m1, q) for q in Qs]
     m1.truncate_levy_measure(trunc)
     r3 = [_ask(m1, q) for q in Q]
     m3 = ctx.fresh_model()
     m3.truncate_levy_measure(trunc)
     r4 = [_ask(m3, q) for q in Q]
+    # copies of the truncated, used model (a coupling / a pool worker copies the chain that holds it)
+    r3s = [r3[j] for j in sub]
+    after = {}
+    for kind in ("deepcopy", "dill", "shallow"):
+        mc_ = _copy_of(sh, m1, kind)
+        if mc_ is not None:
+            after[kind] = [_ask(mc_, q) for q in Qs]
     # a third order: interleave tail integrals first (cache filled by direct queries before any mass)
     m5 = ctx.fresh_model()
     order = sorted(range(len(Q)), key=lambda j: (Q[j][0] not in ("U", "inv"), j))
@@ -1047,6 +1304,13 @@ def _sub_history(sh, case):
     cmp(r1s, r8, "changed after another model (other margins, other copula) answered the same queries", "changed-by-another-model", Qs)
     cmp(r1s, r9, "differs on a fresh model built after another model answered the same queries", "changed-by-another-model", Qs)
     cmp(r3, r4, "after truncate_levy_measure differs between a model queried before the truncation and a fresh one", "stale-after-truncation")
+    cmp(r1s, r6s, "differs on a shallow copy (copy.copy) of the used model", "copy-differs", Qs)
+    if r7d is not None:
+        cmp(r1s, r7d, "differs on a dill round trip of the used model", "copy-differs", Qs)
+    cmp(r4, r10, "after truncate_levy_measure differs between a deepcopy of a used model truncated after the copy and a fresh model", "stale-after-truncation-of-a-copy")
+    cmp(r1s, r10o, "changed after a deepcopy of the model was truncated", "changed-by-truncation-of-a-copy", Qs)
+    for kind, res in after.items():
+        cmp(r3s, res, f"differs on a copy ({kind}) of the used model taken after truncate_levy_measure", f"copy-after-truncation-differs:{kind}", Qs)
     # the two spellings of a zero end point denote the same rectangle / argument (in r1 +0.0 is asked first, in r2 -0.0)
     def norm(q):
         return repr((q[0], _pos_zero(q[1]), _pos_zero(q[2]), q[3]))
@@ -1070,6 +1334,27 @@ def _sub_history(sh, case):
         bad = next(q for q, v in zip(Q, r1) if v.startswith("raised"))
         sh.violation(f"C12:history:{bad[0]}:raises:d={d}", f"query {bad} raised on a fresh model", {"query": bad})
     sh.nontriv()
+
+
+def _copy_of(sh, model, kind):
+    """A copy of the model by copy.copy / copy.deepcopy / a pickle or dill round trip; None (with a note) when the serialiser
+    is not available or refuses the object (not every model has to be picklable with the standard pickler: the engines use dill)."""
+    import copy
+
+    if kind == "shallow":
+        return copy.copy(model)
+    if kind == "deepcopy":
+        return copy.deepcopy(model)
+    try:
+        if kind == "dill":
+            import dill as ser
+        else:
+            import pickle as ser
+        return ser.loads(ser.dumps(model))
+    except Exception as e:
+        sh.note(f"copy: {kind} round trip of the model not possible ({type(e).__name__})")
+        sh.count(f"copy_not_possible:{kind}")
+        return None
 
 
 # ----------------------------------------------------------------------------------------------------------------------
@@ -1142,6 +1427,92 @@ def _sub_reparam(sh, case):
 
 
 # ----------------------------------------------------------------------------------------------------------------------
+# copies of a used model, then one of the two re-parametrised
+# ----------------------------------------------------------------------------------------------------------------------
+
+def _reparametrise(model, cur, to):
+    """The public ways to change the copula of a model: setters between two Clayton copulas, assignment otherwise."""
+    if cur["kind"] == "clayton" and to["kind"] == "clayton":
+        ops = []
+        if cur["theta"] != to["theta"]:
+            model.copula.theta = to["theta"]
+            ops.append("theta")
+        if cur["eta"] != to["eta"]:
+            model.copula.eta = to["eta"]
+            ops.append("eta")
+        return "set-" + "-".join(ops)
+    model.copula = A.make_copula(to)
+    return f"replace-{cur['kind']}-by-{to['kind']}"
+
+
+def _sub_copies(sh, case):
+    """A model is USED (all its caches are populated), copied (case["kind"]: deepcopy / dill / pickle round trip / copy.copy),
+    and then ONE of the two objects is re-parametrised through the public setters of its copula or by assignment of
+    `.copula`. deepcopy / dill / pickle: the re-parametrised object answers like a model freshly constructed with the target
+    copula, the other one still like a fresh model with the source copula (the copies share nothing that the setters reach).
+    copy.copy: the two objects share the copula OBJECT by the definition of a shallow copy: after a setter on that object
+    both answer like a fresh target model; an ASSIGNMENT of `.copula` on a shallow copy is recorded, not judged (on the pinned
+    tree `mass` of a shallow copy is the bound method of the original: counter shallow_copy_mass_still_bound_to_the_original)."""
+    ctx = Ctx(case)
+    d = ctx.d
+    kind = case["kind"]
+    Q = _queries(ctx, small=True)
+    src = ctx.spec["copula"]
+    targets = [t for t in (COPY_TARGETS_THOROUGH if case.get("targets") == "thorough" else COPY_TARGETS) if _ckey(t) != _ckey(src)]
+    fresh = {}
+
+    def expected(c):
+        k = _ckey(c)
+        if k not in fresh:
+            m = build_model(dict(ctx.spec, copula=c), exp=ctx.exp)
+            fresh[k] = [_ask(m, q) for q in Q]
+        return fresh[k]
+
+    def cmp(got, c, who, touched, op):
+        """who: the object asked (copy / original); touched: the object the operation was applied to."""
+        what = "re-parametrised" if (who == touched or kind == "shallow") else "untouched"
+        for q, u, v in zip(Q, got, expected(c)):
+            sh.count("evaluations")
+            if u != v:
+                sh.violation(f"C12:copies:{q[0]}:{kind}:{what}-{who}-differs-from-fresh-model-after-{op}-on-the-{touched}:d={d}",
+                             f"{q[0]}{q[1:]} on the {who} ({kind} of a used model; {op} applied to the {touched}) = {u}, "
+                             f"fresh model with copula {_ckey(c)}: {v}", {"query": q, "kind": kind, "asked": who, "touched": touched, "op": op, "value": u, "fresh_model": v})
+
+    n = 0
+    for to in targets:
+        for touched in ("copy", "original"):
+            m = ctx.fresh_model("direct")
+            for q in Q:
+                _ask(m, q)  # every cache is populated BEFORE the copy
+            c = _copy_of(sh, m, kind)
+            if c is None:
+                continue
+            obj, other = (c, m) if touched == "copy" else (m, c)
+            setters = src["kind"] == "clayton" and to["kind"] == "clayton"
+            if kind == "shallow" and not setters:
+                # assignment of `.copula` on one of two objects that share their attributes: recorded, not judged
+                _reparametrise(obj, src, to)
+                a, b = (0.1,) * d, (0.7,) * d
+                nd = _lib(obj, "_mass_nd")
+                try:
+                    if nd is not None and float(obj.mass(a, b)) != float(nd(list(a), list(b))) and touched == "copy":
+                        sh.count("shallow_copy_mass_still_bound_to_the_original")
+                except Exception:
+                    pass
+                continue
+            op = _reparametrise(obj, src, to)
+            sh.cls(f"copies:{kind}:{op}:on-{touched}")
+            n += 1
+            got_obj = [_ask(obj, q) for q in Q]
+            got_other = [_ask(other, q) for q in Q]
+            cmp(got_obj, to, touched, touched, op)
+            cmp(got_other, to if kind == "shallow" else src, "original" if touched == "copy" else "copy", touched, op)
+            sh.outcome((kind, op, touched, got_obj[0], got_other[0]))
+    sh.count("copy_then_reparametrise", n)
+    sh.nontriv()
+
+
+# ----------------------------------------------------------------------------------------------------------------------
 # spellings of one rectangle
 # ----------------------------------------------------------------------------------------------------------------------
 
@@ -1157,11 +1528,22 @@ def _spell(how, a, b):
     return tuple(a), tuple(b)
 
 
+def _same_container(x, y):
+    """x (after the call) still holds what its copy y (taken before) holds; zeros compared with their sign."""
+    if isinstance(x, np.ndarray):
+        return isinstance(y, np.ndarray) and x.shape == y.shape and np.array_equal(x, y) and np.array_equal(np.signbit(x), np.signbit(y))
+    return type(x) is type(y) and len(x) == len(y) and all(float(u) == float(v) and math.copysign(1.0, u) == math.copysign(1.0, v) for u, v in zip(x, y))
+
+
 def _sub_spelling(sh, case):
     """The rectangle is the input, not the Python objects that carry its end points: tuples of floats (baseline), lists,
     tuples of numpy scalars (zip(*cells) of grid arrays: numerical/samplingfactory), numpy arrays (grid.middle), keyword
     arguments (a=, b=), and zero written -0.0 (mirrored grids). One fresh model per spelling, so that the spelled end points are
-    the first to reach the memoised tail integral."""
+    the first to reach the memoised tail integral.
+    reused-buffers: ONE pair of numpy arrays per size, refilled in place before every call (a caller's loop over cells): the model
+    keeps no reference to them. indices-tuple / indices-np-int64: the index family as a tuple / as a list of numpy integers
+    (np.flatnonzero, np.arange): where the model accepts the form (no exception) it denotes the same family.
+    After every call the containers handed over (a, b, indices) hold what they held before (the callee does not modify them)."""
     ctx = Ctx(case)
     d = ctx.d
     rects = _rect_list(ctx) if d == 2 else _rect_list(ctx, types=SMALL_TYPES, zeros=2)
@@ -1174,23 +1556,43 @@ def _sub_spelling(sh, case):
             base[j] = None  # reported by the rect / subfamily sub-checks
     for how in SPELLINGS:
         mdl = ctx.fresh_model()
+        buffers = {r: (np.empty(r, dtype=float), np.empty(r, dtype=float)) for r in range(1, d + 1)}
         for j, (I, a, b) in enumerate(rects):
             if base[j] is None or (how.startswith("negzero") and not _has_zero(a, b)):
                 continue
             full = len(I) == d
-            pa, pb = _spell(how, a, b)
+            if how == "reused-buffers":
+                pa, pb = buffers[len(I)]
+                pa[:] = a
+                pb[:] = b
+            else:
+                pa, pb = _spell(how, a, b)
+            if how == "indices-tuple":
+                idx = tuple(I)
+            elif how == "indices-np-int64":
+                idx = [np.int64(i) for i in I]
+            else:
+                idx = list(I)
+            explicit = how.startswith("indices-")  # the full family is then named explicitly as well
+            lenient = explicit  # a form the model rejects is outside the alphabet: counted, never an alarm
             S = ctx.scale(I, a, b)
             zc = _zero_class(a, b)
-            routes = {"mass": (lambda: mdl.mass(a=pa, b=pb) if full else mdl.mass(a=pa, b=pb, indices=list(I))) if how == "keywords"
-                      else (lambda: mdl.mass(pa, pb) if full else mdl.mass(pa, pb, indices=list(I)))}
+            if how == "keywords":
+                routes = {"mass": lambda: mdl.mass(a=pa, b=pb) if full else mdl.mass(a=pa, b=pb, indices=idx)}
+            else:
+                routes = {"mass": lambda: mdl.mass(pa, pb) if (full and not explicit) else mdl.mass(pa, pb, indices=idx)}
             nd = _lib(mdl, "_mass_nd")
             if nd is not None and how != "keywords":
-                routes["_mass_nd"] = lambda: nd(pa, pb) if full else nd(pa, pb, list(I))
+                routes["_mass_nd"] = lambda: nd(pa, pb) if (full and not explicit) else nd(pa, pb, idx)
             for name, fn in routes.items():
                 sh.count("evaluations")
+                ka, kb, ki = (pa.copy(), pb.copy()) + (list(idx),) if isinstance(pa, np.ndarray) else (type(pa)(pa), type(pb)(pb), list(idx))
                 try:
                     v = float(fn())
                 except Exception as e:
+                    if lenient:
+                        sh.count(f"spelling_form_rejected:{how}")
+                        continue
                     sh.violation(f"C12:spelling:{name}:raises-{type(e).__name__}:{how}:I={len(I)}of{d}:zero={zc}", f"{name}({_fmt(a, b)}, indices={list(I)}) written as {how} raised {e!r}",
                                  {"a": a, "b": b, "indices": list(I), "spelling": how})
                     continue
@@ -1198,6 +1600,20 @@ def _sub_spelling(sh, case):
                     sh.violation(f"C12:spelling:{name}:differs-from-tuple-of-floats:{how}:I={len(I)}of{d}:zero={zc}:cop={ctx.kind}",
                                  f"{name}({_fmt(a, b)}, indices={list(I)}) written as {how} = {v}, as tuples of Python floats = {base[j]}",
                                  {"a": a, "b": b, "indices": list(I), "spelling": how, "value": v, "baseline": base[j], "scale": S})
+                sh.count("evaluations")
+                if not (_same_container(pa, ka) and _same_container(pb, kb) and list(idx) == ki and len(idx) == len(I)):
+                    sh.violation(f"C12:spelling:{name}:modifies-the-callers-containers:{how}:I={len(I)}of{d}:zero={zc}",
+                                 f"after {name}({_fmt(a, b)}, indices={list(I)}) written as {how} the caller's containers read a={list(pa)}, b={list(pb)}, indices={list(idx)}",
+                                 {"a": a, "b": b, "indices": list(I), "spelling": how, "a_after": [float(x) for x in pa], "b_after": [float(x) for x in pb], "indices_after": [int(i) for i in idx]})
+                    # restore for the routes / rectangles that follow
+                    if how == "reused-buffers":
+                        buffers[len(I)] = (np.empty(len(I), dtype=float), np.empty(len(I), dtype=float))
+                        pa, pb = buffers[len(I)]
+                        pa[:] = a
+                        pb[:] = b
+                    else:
+                        pa, pb = _spell(how, a, b)
+                    idx = tuple(I) if how == "indices-tuple" else ([np.int64(i) for i in I] if how == "indices-np-int64" else list(I))
         sh.cls(f"spelling:{how}")
     sh.count("spelling_rectangles", len(rects))
     sh.outcome((len(rects), float(base[0] or 0.0).hex()))
